@@ -1,6 +1,6 @@
 (* C17 - heartbeats: sent when idle, enforced on the server, off when 0.
    This file only pins statements. *)
-From Amq Require Import Lib.Base Gen.Consts Model.Heartbeat Proofs.Heartbeat Model.Wire Model.Frames Model.OutBuf Model.Collector Model.Slots Model.Core Proofs.CoreMore Lib.RsResult Gen.SrcFire Proofs.HeartbeatSrc.
+From Amq Require Import Lib.Base Gen.Consts Model.Heartbeat Proofs.Heartbeat Model.Wire Model.Frames Model.OutBuf Model.Collector Model.Slots Model.Core Proofs.CoreMore Lib.RsResult Gen.SrcFire Proofs.HeartbeatSrc Lib.RsVal Lib.RsStr Gen.SrcTimers Proofs.TimersSrc.
 
 (* NOT EARLY: for every trace of reads and timer events, if the server is declared dead at time t then nothing was read during the last (2h - 5 ms) before t: the most recent read (or the start) is at least that old *)
 Theorem C17_not_early : forall (evs : list rx_ev) (h : hb) (t : N) (h' : hb), rx_run h evs = (Some t, h') -> mono (h_last h) evs -> exists last : N, last + h_interval h <= t + fudge_ms /\ h_last h' = last /\ (last = h_last h \/ In (RxRead last) evs).
@@ -62,6 +62,10 @@ Proof. exact heartbeat_pass_ok. Qed.
 Theorem C17_fire_source_is_model : forall last interval deadline now : N, last <= now -> let h := {| h_last := last; h_interval := interval; h_deadline := deadline |} in gen_Heartbeat_fire interval (now - last) = RsOk "Heartbeat_fire" [("result", if fst (hb_fire now h) then 1 else 0); ("timer.set_timeout#0", h_deadline (snd (hb_fire now h)) - now)].
 Proof. exact fire_source_is_model. Qed.
 
+(* THE MODEL IS THE SOURCE: RxTxHeartbeat::new of src/io_loop/heartbeat_timers.rs as translated from the source text on every run (Gen/SrcTimers.v; MAX_MISSED_SERVER_HEARTBEATS is read from the source and must equal the constant of the compiled crate in Gen/Consts.v) starts the receive timer with 2 x the negotiated interval and the send timer with the interval itself - the two heartbeats the C17 theorems (dead after 2h of silence, a heartbeat every h) are about *)
+Theorem C17_timers_source_is_model : forall (timer : val) (h : N), gen_RxTxHeartbeat_new ext_model timer (VN h) = VR [("rx", VC "Heartbeat" [VC "HeartbeatKind::Rx" []; VN (c_max_missed_server_heartbeats * h)]); ("tx", VC "Heartbeat" [VC "HeartbeatKind::Tx" []; VN h])].
+Proof. exact timers_source_is_model. Qed.
+
 (* non-vacuity: h = 1: a read at 900 ms, silence afterwards, timer events at 2000 and 2900 *)
 Example C17_example :
   match start_heartbeats 0 1 with
@@ -85,6 +89,7 @@ Check C17_intervals : forall (now secs : N) (rx tx : hb), start_heartbeats now s
 Check C17_missed_not_masked : forall (pre rest : list (hbkind * bool)) (c : core), (forall (k : hbkind) (b : bool), In (k, b) pre -> (k, b) <> (HbRx, true)) -> fst (heartbeat_timers (pre ++ (HbRx, true) :: rest) c) = OErr EMissedHeartbeats.
 Check C17_pass_ok : forall (fired : list (hbkind * bool)) (c : core), (forall (k : hbkind) (b : bool), In (k, b) fired -> (k, b) <> (HbRx, true)) -> fst (heartbeat_timers fired c) = OOk.
 Check C17_fire_source_is_model : forall last interval deadline now : N, last <= now -> let h := {| h_last := last; h_interval := interval; h_deadline := deadline |} in gen_Heartbeat_fire interval (now - last) = RsOk "Heartbeat_fire" [("result", if fst (hb_fire now h) then 1 else 0); ("timer.set_timeout#0", h_deadline (snd (hb_fire now h)) - now)].
+Check C17_timers_source_is_model : forall (timer : val) (h : N), gen_RxTxHeartbeat_new ext_model timer (VN h) = VR [("rx", VC "Heartbeat" [VC "HeartbeatKind::Rx" []; VN (c_max_missed_server_heartbeats * h)]); ("tx", VC "Heartbeat" [VC "HeartbeatKind::Tx" []; VN h])].
 
 Print Assumptions C17_not_early.
 Print Assumptions C17_prompt.
@@ -101,4 +106,5 @@ Print Assumptions C17_intervals.
 Print Assumptions C17_missed_not_masked.
 Print Assumptions C17_pass_ok.
 Print Assumptions C17_fire_source_is_model.
+Print Assumptions C17_timers_source_is_model.
 Print Assumptions C17_example.
